@@ -69,6 +69,18 @@ def gen_inputs(ctx):
     for st, en, c in ((0, 3, "low"), (2 ** 31 - 2, 2 ** 31 + 1, "straddle"), (2 ** 31 - 3, 2 ** 31, "up-to-boundary"), (2 ** 31, 2 ** 31 + 1, "hardened"), (4, 4, "empty")):
         k, kc = rng.choice(sc)
         out.append(("GenChildren", {"par": pub_parent(rng, k, depth=rng.choice([0, 2])), "start": b5(st), "end": b5(en)}, ("pub-genchildren", c)))
+    # intervals with a third element (the API hands the interval to range()): stepped, descending, crossing 2^31 downwards,
+    # ending above it, all hardened, empty - whichever index comes first or last, a hardened one anywhere refuses the batch
+    Hd = 2 ** 31
+    stepped = [(0, 9, 3, "low-step"), (5, 0, -1, "low-descending"), (Hd + 2, Hd - 3, -1, "descending-across"), (Hd + 1, Hd - 4, -2, "descending-across-step2"),
+               (Hd - 4, Hd + 3, 3, "ascending-across-step3"), (Hd - 1, Hd - 5, -1, "descending-below"), (Hd, Hd - 2, -1, "descending-from-boundary"),
+               (Hd + 3, Hd, -1, "descending-all-hardened"), (7, 7, -1, "empty"), (Hd - 6, Hd + 1, 5, "ascending-last-below")]
+    for st, en, step, c in (stepped if not q else stepped[:1] + rng.sample(stepped[1:], 5)):
+        k, kc = rng.choice(sc)
+        for priv in (False, True):
+            inp = {"par": (parent if priv else pub_parent)(rng, k, depth=rng.choice([0, 2])), "start": b5(st), "end": b5(en),
+                   "step": {"neg": step < 0, "mag": abs(step)}, "idxs": [idx4(i) for i in range(st, en, step)]}
+            out.append(("GenChildren", inp, ("genchildren-stepped", c, priv)))
     for _ in range(4 if q else 40):
         k, kc = rng.choice(sc)
         path = [rng.randrange(2 ** 31) for _ in range(rng.randrange(1, 5))]
